@@ -18,6 +18,28 @@ CHECKS = {
             "CPython 3.11 is the reference; the whitelist of shared constructs (DESIGN.md C01 + Corrections) is trusted "
             "to contain only constructs on which the Starlark spec and Python agree.",
             "DESIGN.md#c01"),
+    "C03": ("model_checking",
+            "exhaustive enumeration of GC schedules (every subset of the safepoints) over bounded-exhaustive heap-shaping programs, on the real evaluator with a controlled collector",
+            "For every program of the heap-shaping families (all statement sequences of length <=3 over a 50-statement "
+            "alphabet with cycles, aliasing, closures, partial, records, enums, embedder-set variables, extra_value, "
+            "second evaluation on the same module, plus multi-step scenarios), the hook decides collect/not at every "
+            "safepoint the evaluator offers and ALL 2^n placements are executed (n<=8..16; beyond: all placements with "
+            "<=2 collections, every k-th, always). Dropped arenas are poisoned so a lost root is a crash or wrong read. "
+            "Transcript, result, error text and frozen exports must equal the no-collection run.",
+            "Schedule space is what the evaluator offers (top-level statement safepoints). Poisoning turns dangling "
+            "reads into faults deterministically but a dangling pointer never dereferenced is not observed.",
+            "DESIGN.md#c03"),
+    "C11": ("model_checking",
+            "explicit-state BFS over the real containers (cloned per transition) in lock-step with a Vec-of-pairs reference model; invariant + all queries checked in every state",
+            "Breadth-first search to a fixed point (or a stated depth) over SmallMap/SmallSet/Vec2/OrderedMap/OrderedSet/"
+            "SortedMap/SortedSet/UnorderedMap/UnorderedSet: 4 active keys + up to 20 fillers under 6 hash patterns "
+            "(natural, distinct, all-colliding, pairwise, equal-low-bits, equal-high-bits), 10 start states that "
+            "straddle the 16-entry index threshold (filled, pre-reserved, grown-then-shrunk), ~70 operations. Every "
+            "transition runs on the implementation; every state compares every lookup/iteration with the model and "
+            "evaluates the private hash-index invariant through the hook.",
+            "hashbrown is trusted. Canonical state = entries+stored hashes+capacity+index presence (index content is "
+            "checked, not hashed, because the invariant pins it).",
+            "DESIGN.md#c11"),
 }
 
 NOT_YET = {
